@@ -96,13 +96,13 @@ var consumerSpecs = []consumerSpec{
 
 func init() {
 	register(&propDef{
-		id: "C32",
+		id:      "C32",
 		explain: "Decides, by constant evaluation of /repo's source (no execution): (R1) each of the 8 byte-class table constants in bytesconv_table.go has the required length and every entry equals a reference predicate written independently in the checker from RFC 3986 2.3 / RFC 9110 (exhaustive over all byte values); (R2) every indexing of a table shorter than 256 entries is guarded by a bound test on the index; (R3) the comparison each consumer applies to the looked-up entry (e.g. table[c] == 1, < 16, != 0), folded over all 256 entries, equals the reference predicate of that consumer; (R4) the switch in AppendHTMLEscape maps exactly the five bytes of html.EscapeString to its five replacements; (R5) header-name canonicalisation upper-cases the first byte and each byte after '-' and lower-cases the rest using those tables. NOT decided: equality of normalizeHeaderKey with net/textproto for every token as a whole-string function, and the escaping functions' output strings.",
-		assume: []string{"reference predicates in checker/rules_c32_c30.go are a faithful transcription of RFC 3986 2.3, RFC 9110 5.6.2/5.5 and html.EscapeString"},
-		run:    runC32,
+		assume:  []string{"reference predicates in checker/rules_c32_c30.go are a faithful transcription of RFC 3986 2.3, RFC 9110 5.6.2/5.5 and html.EscapeString"},
+		run:     runC32,
 	})
 	register(&propDef{
-		id: "C30",
+		id:      "C30",
 		explain: "Decides structural/arithmetical necessary conditions of the integer codecs on the analysed GOARCH (amd64; thorough adds 386): (R1) the constants the overflow guard relies on satisfy, in exact big-integer arithmetic, maxIntDiv10 = floor(MaxInt/10), 10^maxSafeIntDigits-1 <= MaxInt, 10*maxIntDiv10+9 < 2^wordsize (so one sign test is decisive), 16^maxHexIntChars-1 <= MaxInt and the hex buffer holds every digit of MaxInt; (R2) in parseUintBuf every path that carries the new accumulator into the next iteration has passed either the 'few digits' test or both overflow tests with the overflow outcome excluded; (R3) in readHexInt the shift-accumulate is only reached with the digit count below maxHexIntChars; (R4) ParseUint returns an error when parseUintBuf consumed less than the whole input; (R5) AppendUint and writeHexInt reject negative input before formatting. NOT decided: the accepted language of ParseUint as a whole, AppendUint/ParseUint being inverse, values of chunk sizes.",
 		run:     runC30,
 	})
@@ -353,7 +353,7 @@ type strIndex struct {
 }
 
 func (s *strIndex) Block() *ssa.BasicBlock { return s.In.Block() }
-func (s *strIndex) Pos() token.Pos        { return s.In.Pos() }
+func (s *strIndex) Pos() token.Pos         { return s.In.Pos() }
 
 func asStrIndex(in ssa.Instruction) *strIndex {
 	switch in := in.(type) {
@@ -638,9 +638,9 @@ func runC30(p *Prog, r *Report) {
 // (i < safe) or (not v > div10 and not vNew < 0).
 func checkParseUintGuard(p *Prog, r *Report, fn *ssa.Function, div10, safe int64) {
 	const (
-		evFew   = 1 << iota // took the edge meaning "i < maxSafeIntDigits"
-		evNotGt             // took the edge meaning !(v > maxIntDiv10)
-		evNotNeg            // took the edge meaning !(vNew < 0)
+		evFew    = 1 << iota // took the edge meaning "i < maxSafeIntDigits"
+		evNotGt              // took the edge meaning !(v > maxIntDiv10)
+		evNotNeg             // took the edge meaning !(vNew < 0)
 	)
 	// identify the accumulator phi: a phi with a back-edge operand that is an ADD of (10*phi) and a digit
 	var acc *ssa.Phi
